@@ -138,6 +138,9 @@ class PbnWriter(Writer):
                                 taken_tricks))
         # TODO: Implement optional fields.
 
+        # An empty line indicates the end of the game.
+        self.writer.write('\n')
+
 
 class Scoring(Enum):
     """PBN Scoring systems.
